@@ -374,6 +374,11 @@ func getUnquoteType(v *LVal) (unquoteType, error) {
 }
 
 func findAndUnquote(env *LEnv, v *LVal, depth int) *LVal {
+	// A template can only be as deep as the reader allows unless a program
+	// built it as data; one that contains itself has no bottom at all.
+	if limit := env.Runtime.MaxEvalNestingDepth(); limit > 0 && depth > limit {
+		return env.Errorf("quasiquote: template is nested too deeply (or contains itself)")
+	}
 	inner := v
 	quoteLevel := 0
 	if inner.quoted {
